@@ -1,5 +1,5 @@
-(* Proofs about the model of rewrite_imports (theories/Migrate.v) and the regenerated
-   tables (generated/GenMapping.v, generated/GenExports.v).  Statements of record are
+(* Proofs about the model of rewrite_imports (theories/Migrate.v): the regenerated tables
+   and the replacement of one from-import (the line splice is in MigrateSplice.v); tables (generated/GenMapping.v, generated/GenExports.v).  Statements of record are
    restated in props/C19.v. *)
 Require Import D42.Prelude D42.Migrate.
 Require Import D42Gen.GenMapping D42Gen.GenExports.
@@ -221,480 +221,6 @@ Proof.
   - exact (rewrite_import_all_absolute mp m ns).
 Qed.
 
-(* ------------------------------------------------------------------ the line splice *)
-(* what the splices amount to when no line is shared: the line holding the first piece of a
-   rewritten import becomes the replacement lines, its other lines disappear, every other
-   physical line stays *)
-Definition fwd_line (mp : mapping_t) (l : line) : list line :=
-  match l with
-  | [Frag s k n] =>
-      if rewritten s then (if k =? 0 then map stmt_line (rewrite_stmt mp s) else []) else [l]
-  | _ => [l]
-  end.
-Definition fwd (mp : mapping_t) (ls : list line) : list line := flat_map (fwd_line mp) ls.
-
-Definition st_rewritten (st : pstate) : bool :=
-  match st with Some (s, _, _, _) => rewritten s | None => false end.
-
-Lemma replacements_app mp a b : replacements mp (a ++ b) = replacements mp a ++ replacements mp b.
-Proof. unfold replacements. apply flat_map_app. Qed.
-
-Lemma replacements_cons mp it its :
-  replacements mp (it :: its) = replacements mp [it] ++ replacements mp its.
-Proof. apply (replacements_app mp [it] its). Qed.
-
-Lemma replacements_plain mp s a b : rewritten s = false -> replacements mp [(s, a, b)] = [].
-Proof. destruct s as [[|l] m ns|i]; simpl; intros H; try discriminate; reflexivity. Qed.
-
-Lemma replacements_rewritten mp s a b : rewritten s = true ->
-  replacements mp [(s, a, b)] = [(a, b, map stmt_line (rewrite_stmt mp s))].
-Proof. destruct s as [[|l] m ns|i]; simpl; intros H; try discriminate; reflexivity. Qed.
-
-Local Arguments Nat.eqb : simpl never.
-Local Arguments Nat.leb : simpl never.
-
-Lemma eat_frags_plain mp : forall l i its st',
-  existsb frag_rewritten l = false -> eat_frags i l = Some (its, st') ->
-  replacements mp its = [] /\ st_rewritten st' = false.
-Proof.
-  induction l as [|[s k n] l IH]; intros i its st' HP HE; simpl in HE.
-  - inversion HE. subst. split; reflexivity.
-  - simpl in HP. apply orb_false_iff in HP. destruct HP as [Hs HP].
-    destruct (k =? 0); try discriminate.
-    destruct (n =? 1).
-    + destruct (eat_frags i l) as [[its0 st0]|] eqn:E0; simpl in HE; try discriminate.
-      inversion HE. subst. destruct (IH _ _ _ HP E0) as [R1 R2]. split; auto.
-      unfold prepend. simpl fst. rewrite replacements_cons, R1, (replacements_plain mp s i i Hs).
-      reflexivity.
-    + destruct (2 <=? n); try discriminate. destruct l; try discriminate.
-      inversion HE. subst. split; [reflexivity | exact Hs].
-Qed.
-
-Lemma eat_line_plain mp i st l its st' :
-  st_rewritten st = false -> existsb frag_rewritten l = false ->
-  eat_line i st l = Some (its, st') ->
-  replacements mp its = [] /\ st_rewritten st' = false.
-Proof.
-  intros Hst HP HE. destruct st as [[[[s0 a] k0] n0]|]; simpl in HE.
-  - destruct l as [|[s k n] l]; try discriminate.
-    simpl in HP. apply orb_false_iff in HP. destruct HP as [Hs HP].
-    destruct (stmt_eqb s s0 && (k =? k0) && (n =? n0)); try discriminate.
-    destruct (S k0 =? n0).
-    + destruct (eat_frags i l) as [[its0 st0]|] eqn:E0; simpl in HE; try discriminate.
-      inversion HE. subst. destruct (eat_frags_plain mp _ _ _ _ HP E0) as [R1 R2]. split; auto.
-      unfold prepend. simpl fst. rewrite replacements_cons, R1.
-      simpl in Hst. rewrite (replacements_plain mp s0 a i Hst). reflexivity.
-    + destruct l; try discriminate. inversion HE. subst. split; [reflexivity | exact Hst].
-  - eapply eat_frags_plain; eauto.
-Qed.
-
-Lemma fwd_line_plain mp l : existsb frag_rewritten l = false -> fwd_line mp l = [l].
-Proof.
-  destruct l as [|[s k n] [|f l]]; simpl; auto. intros H.
-  apply orb_false_iff in H. destruct H as [H _]. rewrite H. reflexivity.
-Qed.
-
-(* a line holding a rewritten piece and nothing else *)
-Lemma disjoint_line_shape (l : line) :
-  existsb frag_rewritten l = true -> length l =? 1 = true ->
-  exists s k n, l = [Frag s k n] /\ rewritten s = true.
-Proof.
-  destruct l as [|[s k n] [|f l]]; simpl; intros H1 H2; try discriminate.
-  exists s, k, n. split; auto. rewrite orb_false_r in H1. exact H1.
-Qed.
-
-Lemma firstn_le_app {A} a (X Y : list A) : a <= length X -> firstn a (X ++ Y) = firstn a X.
-Proof.
-  intros H. rewrite firstn_app. replace (a - length X) with 0 by lia.
-  simpl. apply app_nil_r.
-Qed.
-
-Lemma firstn_len_app {A} (X Y : list A) : firstn (length X) (X ++ Y) = X.
-Proof. rewrite firstn_app, Nat.sub_diag, firstn_all. simpl. apply app_nil_r. Qed.
-
-Lemma skipn_len_app {A} (X Y : list A) : skipn (length X) (X ++ Y) = Y.
-Proof. rewrite skipn_app, Nat.sub_diag, skipn_all. reflexivity. Qed.
-
-Definition expected_out (mp : mapping_t) (st : pstate) (pre ls : list line) : list line :=
-  match st with
-  | Some (s, a, _, _) =>
-      if rewritten s then firstn a pre ++ map stmt_line (rewrite_stmt mp s) ++ fwd mp ls
-      else pre ++ fwd mp ls
-  | None => pre ++ fwd mp ls
-  end.
-
-Definition st_inv (st : pstate) (i : nat) : Prop :=
-  match st with
-  | Some (s, a, k, _) => rewritten s = true -> a <= i /\ k <> 0
-  | None => True
-  end.
-
-Lemma expected_out_plain mp st pre ls :
-  st_rewritten st = false -> expected_out mp st pre ls = pre ++ fwd mp ls.
-Proof. destruct st as [[[[s a] k] n]|]; simpl; auto. intros ->. reflexivity. Qed.
-
-Lemma fwd_cons mp l ls : fwd mp (l :: ls) = fwd_line mp l ++ fwd mp ls.
-Proof. reflexivity. Qed.
-
-Local Arguments fwd : simpl never.
-Local Arguments fwd_line : simpl never.
-
-Lemma splice_at_end (a i : nat) (R : list (list frag)) (pre : list (list frag)) l F :
-  length pre = i -> a <= i ->
-  splice (a, i, R) ((pre ++ [l]) ++ F) = firstn a pre ++ R ++ F.
-Proof.
-  intros HL Ha. unfold splice.
-  assert (HL' : length (pre ++ [l]) = S i) by (rewrite app_length; simpl; lia).
-  rewrite (firstn_le_app a (pre ++ [l]) F) by lia.
-  rewrite (firstn_le_app a pre [l]) by lia.
-  replace (Nat.max a (S i)) with (length (pre ++ [l])) by lia.
-  rewrite skipn_len_app. reflexivity.
-Qed.
-
-Lemma apply_fwd mp : forall ls i st items pre,
-  parse_lines i st ls = Some items -> line_disjoint ls = true -> length pre = i -> st_inv st i ->
-  apply_replacements (replacements mp items) (pre ++ ls) = expected_out mp st pre ls.
-Proof.
-  induction ls as [|l ls IH]; intros i st items pre HP HD HL HI.
-  - simpl in HP. destruct st; try discriminate. inversion HP. subst. reflexivity.
-  - simpl in HP. destruct (eat_line i st l) as [[its st1]|] eqn:EL; try discriminate.
-    destruct (parse_lines (S i) st1 ls) as [rest|] eqn:PR; try discriminate.
-    inversion HP. subst items. clear HP.
-    simpl in HD. apply andb_true_iff in HD. destruct HD as [HDl HD].
-    assert (HL' : length (pre ++ [l]) = S i) by (rewrite app_length; simpl; lia).
-    replace (pre ++ l :: ls) with ((pre ++ [l]) ++ ls) by (rewrite <- app_assoc; reflexivity).
-    rewrite replacements_app. unfold apply_replacements in *.
-    destruct (st_rewritten st) eqn:SR.
-    + (* inside a rewritten import *)
-      destruct st as [[[[s0 a] k0] n0]|]; simpl in SR; try discriminate.
-      destruct (HI SR) as [Ha Hk].
-      unfold eat_line in EL. destruct l as [|[s k n] l']; try discriminate.
-      destruct (stmt_eqb s s0 && (k =? k0) && (n =? n0)) eqn:T; try discriminate.
-      apply andb_true_iff in T. destruct T as [T T3]. apply andb_true_iff in T. destruct T as [T1 T2].
-      apply stmt_eqb_eq in T1. apply Nat.eqb_eq in T2. apply Nat.eqb_eq in T3. subst s k n.
-      assert (l' = []) as ->.
-      { simpl in HDl. rewrite SR in HDl. simpl in HDl. destruct l'; [reflexivity | discriminate]. }
-      assert (FL : fwd_line mp [Frag s0 k0 n0] = []).
-      { unfold fwd_line. rewrite SR. destruct k0; [congruence | reflexivity]. }
-      unfold expected_out. rewrite SR. rewrite fwd_cons, FL. simpl app.
-      destruct (S k0 =? n0).
-      * simpl in EL. inversion EL. subst its st1. clear EL.
-        rewrite (replacements_rewritten mp s0 a i SR). simpl app. simpl fold_right.
-        rewrite (IH (S i) None rest (pre ++ [[Frag s0 k0 n0]]) PR HD HL' I).
-        unfold expected_out. apply splice_at_end; auto.
-      * inversion EL. subst its st1. clear EL. simpl app.
-        assert (HI1 : st_inv (Some (s0, a, S k0, n0)) (S i)) by (simpl; intros _; split; lia).
-        rewrite (IH (S i) _ rest (pre ++ [[Frag s0 k0 n0]]) PR HD HL' HI1).
-        unfold expected_out. rewrite SR. rewrite firstn_le_app by lia. reflexivity.
-    + rewrite (expected_out_plain mp st pre (l :: ls) SR). rewrite fwd_cons.
-      destruct (existsb frag_rewritten l) eqn:XR.
-      * (* the first line of a rewritten import *)
-        simpl in HDl. destruct (disjoint_line_shape l XR HDl) as [s [k [n [-> Hs]]]].
-        destruct st as [[[[s0 a0] k0] n0]|].
-        { exfalso. unfold eat_line in EL. simpl in SR.
-          destruct (stmt_eqb s s0) eqn:T1; simpl in EL; try discriminate.
-          apply stmt_eqb_eq in T1. congruence. }
-        unfold eat_line in EL. simpl in EL. destruct (k =? 0) eqn:K0; try discriminate.
-        apply Nat.eqb_eq in K0. subst k.
-        assert (FL : fwd_line mp [Frag s 0 n] = map stmt_line (rewrite_stmt mp s)).
-        { unfold fwd_line. rewrite Hs. reflexivity. }
-        rewrite FL.
-        destruct (n =? 1) eqn:N1.
-        -- simpl in EL. inversion EL. subst its st1. clear EL.
-           rewrite (replacements_rewritten mp s i i Hs). simpl app. simpl fold_right.
-           rewrite (IH (S i) None rest (pre ++ [[Frag s 0 n]]) PR HD HL' I).
-           unfold expected_out.
-           pose proof (splice_at_end i i (map stmt_line (rewrite_stmt mp s)) pre [Frag s 0 n]
-                                     (fwd mp ls) HL (le_n i)) as X.
-           unfold splice in X. rewrite X. clear X.
-           subst i. rewrite firstn_all. reflexivity.
-        -- destruct (2 <=? n); try discriminate. inversion EL. subst its st1. clear EL. simpl app.
-           assert (HI1 : st_inv (Some (s, i, 1, n)) (S i)) by (simpl; intros _; split; lia).
-           rewrite (IH (S i) _ rest (pre ++ [[Frag s 0 n]]) PR HD HL' HI1).
-           unfold expected_out. rewrite Hs. subst i. rewrite firstn_len_app. reflexivity.
-      * (* a line without any piece of a rewritten import *)
-        destruct (eat_line_plain mp i st l its st1 SR XR EL) as [R1 R2].
-        rewrite R1. simpl app.
-        assert (HI1 : st_inv st1 (S i)).
-        { destruct st1 as [[[[s1 a1] k1] n1]|]; simpl; auto. simpl in R2. congruence. }
-        rewrite (IH (S i) st1 rest (pre ++ [l]) PR HD HL' HI1).
-        rewrite (expected_out_plain mp st1 _ _ R2).
-        rewrite (fwd_line_plain mp l XR).
-        rewrite <- app_assoc. reflexivity.
-Qed.
-
-(* ------------------------------------------------------------------ reading statements
-   off lines does not depend on the line numbers: a span-free copy of the parser *)
-Definition pstate0 := option (stmt * nat * nat).
-Definition forget (st : pstate) : pstate0 :=
-  match st with Some (s, _, k, n) => Some (s, k, n) | None => None end.
-Definition proj (r : list (stmt * nat * nat) * pstate) : list stmt * pstate0 :=
-  (map it_stmt (fst r), forget (snd r)).
-Definition prepend0 (s : stmt) (r : list stmt * pstate0) : list stmt * pstate0 := (s :: fst r, snd r).
-
-Fixpoint eat_frags0 (l : list frag) : option (list stmt * pstate0) :=
-  match l with
-  | [] => Some ([], None)
-  | Frag s k n :: l' =>
-      if k =? 0 then
-        if n =? 1 then option_map (prepend0 s) (eat_frags0 l')
-        else if 2 <=? n then
-               match l' with [] => Some ([], Some (s, 1, n)) | _ => None end
-             else None
-      else None
-  end.
-
-Definition eat_line0 (st : pstate0) (l : list frag) : option (list stmt * pstate0) :=
-  match st with
-  | None => eat_frags0 l
-  | Some (s0, k0, n0) =>
-      match l with
-      | [] => None
-      | Frag s k n :: l' =>
-          if stmt_eqb s s0 && (k =? k0) && (n =? n0) then
-            if S k0 =? n0 then option_map (prepend0 s0) (eat_frags0 l')
-            else match l' with [] => Some ([], Some (s0, S k0, n0)) | _ => None end
-          else None
-      end
-  end.
-
-Fixpoint parse0 (st : pstate0) (ls : list (list frag)) : option (list stmt) :=
-  match ls with
-  | [] => match st with None => Some [] | Some _ => None end
-  | l :: ls' =>
-      match eat_line0 st l with
-      | None => None
-      | Some (ss, st') =>
-          match parse0 st' ls' with
-          | None => None
-          | Some rest => Some (ss ++ rest)
-          end
-      end
-  end.
-
-Lemma eat_frags_proj i l : option_map proj (eat_frags i l) = eat_frags0 l.
-Proof.
-  induction l as [|[s k n] l IH]; simpl; auto.
-  destruct (k =? 0); auto. destruct (n =? 1).
-  - rewrite <- IH. destruct (eat_frags i l) as [[its st]|]; reflexivity.
-  - destruct (2 <=? n); auto. destruct l; reflexivity.
-Qed.
-
-Lemma eat_line_proj i st l : option_map proj (eat_line i st l) = eat_line0 (forget st) l.
-Proof.
-  destruct st as [[[[s0 a] k0] n0]|]; simpl; [|apply eat_frags_proj].
-  destruct l as [|[s k n] l]; auto.
-  destruct (stmt_eqb s s0 && (k =? k0) && (n =? n0)); auto.
-  destruct (S k0 =? n0).
-  - rewrite <- (eat_frags_proj i l). destruct (eat_frags i l) as [[its st]|]; reflexivity.
-  - destruct l; reflexivity.
-Qed.
-
-Lemma parse_proj : forall ls i st,
-  option_map (map it_stmt) (parse_lines i st ls) = parse0 (forget st) ls.
-Proof.
-  induction ls as [|l ls IH]; intros i st; simpl.
-  - destruct st as [[[[s a] k] n]|]; reflexivity.
-  - rewrite <- (eat_line_proj i st l).
-    destruct (eat_line i st l) as [[its st1]|]; simpl; auto.
-    rewrite <- (IH (S i) st1).
-    destruct (parse_lines (S i) st1 ls); simpl; auto. rewrite map_app. reflexivity.
-Qed.
-
-Lemma stmts_of_parse0 ls : stmts_of ls = parse0 None ls.
-Proof. unfold stmts_of, ast_view. apply (parse_proj ls 0 None). Qed.
-
-Definition st_rewritten0 (st : pstate0) : bool :=
-  match st with Some (s, _, _) => rewritten s | None => false end.
-
-Lemma rewrite_stmt_plain mp s : rewritten s = false -> rewrite_stmt mp s = [s].
-Proof. destruct s as [[|l] m ns|i]; simpl; intros H; try discriminate; reflexivity. Qed.
-
-Lemma flat_rewrite_plain mp ss :
-  forallb (fun s => negb (rewritten s)) ss = true -> flat_map (rewrite_stmt mp) ss = ss.
-Proof.
-  induction ss as [|s ss IH]; simpl; auto. intros H. apply andb_true_iff in H. destruct H as [H1 H2].
-  apply negb_true_iff in H1. rewrite (rewrite_stmt_plain mp s H1), IH; auto.
-Qed.
-
-Lemma eat_frags0_plain : forall l ss st',
-  existsb frag_rewritten l = false -> eat_frags0 l = Some (ss, st') ->
-  forallb (fun s => negb (rewritten s)) ss = true /\ st_rewritten0 st' = false.
-Proof.
-  induction l as [|[s k n] l IH]; intros ss st' HP HE; simpl in HE.
-  - inversion HE. subst. split; reflexivity.
-  - simpl in HP. apply orb_false_iff in HP. destruct HP as [Hs HP].
-    destruct (k =? 0); try discriminate.
-    destruct (n =? 1).
-    + destruct (eat_frags0 l) as [[ss0 st0]|] eqn:E0; simpl in HE; try discriminate.
-      inversion HE. subst. destruct (IH _ _ HP eq_refl) as [R1 R2]. split; auto.
-      simpl. rewrite Hs, R1. reflexivity.
-    + destruct (2 <=? n); try discriminate. destruct l; try discriminate.
-      inversion HE. subst. split; [reflexivity | exact Hs].
-Qed.
-
-Lemma eat_line0_plain st l ss st' :
-  st_rewritten0 st = false -> existsb frag_rewritten l = false ->
-  eat_line0 st l = Some (ss, st') ->
-  forallb (fun s => negb (rewritten s)) ss = true /\ st_rewritten0 st' = false.
-Proof.
-  intros Hst HP HE. destruct st as [[[s0 k0] n0]|]; unfold eat_line0 in HE.
-  - destruct l as [|[s k n] l]; try discriminate.
-    simpl in HP. apply orb_false_iff in HP. destruct HP as [Hs HP].
-    destruct (stmt_eqb s s0 && (k =? k0) && (n =? n0)); try discriminate.
-    destruct (S k0 =? n0).
-    + destruct (eat_frags0 l) as [[ss0 st0]|] eqn:E0; simpl in HE; try discriminate.
-      inversion HE. subst. destruct (eat_frags0_plain _ _ _ HP E0) as [R1 R2]. split; auto.
-      simpl in *. rewrite Hst, R1. reflexivity.
-    + destruct l; try discriminate. inversion HE. subst. split; [reflexivity | exact Hst].
-  - eapply eat_frags0_plain; eauto.
-Qed.
-
-(* the replacement lines read back as the replacement statements *)
-Lemma parse0_stmt_lines : forall R X,
-  parse0 None (map stmt_line R ++ X) = option_map (app R) (parse0 None X).
-Proof.
-  induction R as [|s R IH]; intros X; simpl.
-  - destruct (parse0 None X); reflexivity.
-  - rewrite IH. destruct (parse0 None X); reflexivity.
-Qed.
-
-Definition fwd_concl (mp : mapping_t) (st : pstate0) (ls : list (list frag)) (ss : list stmt) : Prop :=
-  match st with
-  | Some (s, k, n) =>
-      if rewritten s then
-        k <> 0 -> exists ss', ss = s :: ss' /\
-                              parse0 None (fwd mp ls) = Some (flat_map (rewrite_stmt mp) ss')
-      else parse0 st (fwd mp ls) = Some (flat_map (rewrite_stmt mp) ss)
-  | None => parse0 None (fwd mp ls) = Some (flat_map (rewrite_stmt mp) ss)
-  end.
-
-Lemma fwd_concl_plain mp st ls ss : st_rewritten0 st = false ->
-  fwd_concl mp st ls ss <-> parse0 st (fwd mp ls) = Some (flat_map (rewrite_stmt mp) ss).
-Proof. destruct st as [[[s k] n]|]; simpl; [intros ->|]; tauto. Qed.
-
-Lemma stmts_fwd0 mp : forall ls st ss,
-  parse0 st ls = Some ss -> line_disjoint ls = true -> fwd_concl mp st ls ss.
-Proof.
-  induction ls as [|l ls IH]; intros st ss HP HD.
-  - simpl in HP. destruct st; try discriminate. inversion HP. subst. reflexivity.
-  - simpl in HP. destruct (eat_line0 st l) as [[ss1 st1]|] eqn:EL; try discriminate.
-    destruct (parse0 st1 ls) as [rest|] eqn:PR; try discriminate.
-    inversion HP. subst ss. clear HP.
-    simpl in HD. apply andb_true_iff in HD. destruct HD as [HDl HD].
-    specialize (IH st1 rest PR HD).
-    destruct (st_rewritten0 st) eqn:SR.
-    + destruct st as [[[s0 k0] n0]|]; simpl in SR; try discriminate.
-      unfold fwd_concl. rewrite SR. intros Hk.
-      unfold eat_line0 in EL. destruct l as [|[s k n] l']; try discriminate.
-      destruct (stmt_eqb s s0 && (k =? k0) && (n =? n0)) eqn:T; try discriminate.
-      apply andb_true_iff in T. destruct T as [T T3]. apply andb_true_iff in T. destruct T as [T1 T2].
-      apply stmt_eqb_eq in T1. apply Nat.eqb_eq in T2. apply Nat.eqb_eq in T3. subst s k n.
-      assert (l' = []) as ->.
-      { simpl in HDl. rewrite SR in HDl. simpl in HDl. destruct l'; [reflexivity | discriminate]. }
-      assert (FL : fwd_line mp [Frag s0 k0 n0] = []).
-      { unfold fwd_line. rewrite SR. destruct k0; [congruence | reflexivity]. }
-      rewrite fwd_cons, FL. simpl app.
-      destruct (S k0 =? n0).
-      * simpl in EL. inversion EL. subst ss1 st1. clear EL.
-        exists rest. split; [reflexivity | exact IH].
-      * inversion EL. subst ss1 st1. clear EL. simpl app.
-        unfold fwd_concl in IH. rewrite SR in IH. apply IH. congruence.
-    + apply (fwd_concl_plain mp st (l :: ls) _ SR). rewrite fwd_cons.
-      destruct (existsb frag_rewritten l) eqn:XR.
-      * simpl in HDl. destruct (disjoint_line_shape l XR HDl) as [s [k [n [-> Hs]]]].
-        destruct st as [[[s0 k0] n0]|].
-        { exfalso. unfold eat_line0 in EL. simpl in SR.
-          destruct (stmt_eqb s s0) eqn:T1; simpl in EL; try discriminate.
-          apply stmt_eqb_eq in T1. congruence. }
-        unfold eat_line0 in EL. simpl in EL. destruct (k =? 0) eqn:K0; try discriminate.
-        apply Nat.eqb_eq in K0. subst k.
-        assert (FL : fwd_line mp [Frag s 0 n] = map stmt_line (rewrite_stmt mp s)).
-        { unfold fwd_line. rewrite Hs. reflexivity. }
-        rewrite FL, parse0_stmt_lines.
-        destruct (n =? 1) eqn:N1.
-        -- simpl in EL. inversion EL. subst ss1 st1. clear EL.
-           simpl in IH. rewrite IH. reflexivity.
-        -- destruct (2 <=? n); try discriminate. inversion EL. subst ss1 st1. clear EL.
-           unfold fwd_concl in IH. rewrite Hs in IH.
-           destruct IH as [ss' [-> IH]]; [congruence|]. rewrite IH. reflexivity.
-      * destruct (eat_line0_plain st l ss1 st1 SR XR EL) as [R1 R2].
-        rewrite (fwd_line_plain mp l XR). simpl app. simpl parse0. rewrite EL.
-        apply (fwd_concl_plain mp st1 ls rest R2) in IH. rewrite IH.
-        rewrite flat_map_app, (flat_rewrite_plain mp ss1 R1). reflexivity.
-Qed.
-
-(* ------------------------------------------------------------------ main statements *)
-Lemma apply_replacements_fwd mp ls body :
-  ast_view ls = Some body -> line_disjoint ls = true ->
-  apply_replacements (replacements mp body) ls = fwd mp ls.
-Proof.
-  intros HA HD.
-  apply (apply_fwd mp ls 0 None body [] HA HD eq_refl I).
-Qed.
-
-Lemma rewrite_splice_correct_lemma mp ls body :
-  ast_view ls = Some body -> line_disjoint ls = true ->
-  stmts_of (apply_replacements (replacements mp body) ls)
-  = Some (flat_map (rewrite_stmt mp) (map it_stmt body)).
-Proof.
-  intros HA HD. rewrite (apply_replacements_fwd mp ls body HA HD), stmts_of_parse0.
-  assert (H0 : parse0 None ls = Some (map it_stmt body)).
-  { rewrite <- stmts_of_parse0. unfold stmts_of. rewrite HA. reflexivity. }
-  exact (stmts_fwd0 mp ls None _ H0 HD).
-Qed.
-
-(* None exactly when there is no absolute ImportFrom at top level *)
-Lemma replacements_nil_iff mp body :
-  replacements mp body = [] <-> forallb (fun it => negb (rewritten (it_stmt it))) body = true.
-Proof.
-  induction body as [|[[s a] b] body IH]; simpl; [tauto|].
-  rewrite andb_true_iff, <- IH. unfold it_stmt. simpl.
-  destruct s as [[|l] m ns|i]; simpl; split; intros H; try discriminate; try tauto.
-  destruct H; discriminate.
-Qed.
-
-Lemma rewrite_none_iff_lemma mp ls body :
-  rewrite_imports mp ls body = None <->
-  (forall it, In it body -> rewritten (it_stmt it) = false).
-Proof.
-  unfold rewrite_imports.
-  assert (E : (forall it, In it body -> rewritten (it_stmt it) = false)
-              <-> replacements mp body = []).
-  { rewrite replacements_nil_iff, forallb_forall. split; intros H it Hit.
-    - rewrite (H it Hit). reflexivity.
-    - apply negb_true_iff. auto. }
-  rewrite E. destruct (replacements mp body); split; intros H; congruence.
-Qed.
-
-(* the whole function, on a source whose two views agree and whose imports own their lines *)
-Lemma rewrite_source_correct_lemma mp ls body :
-  ast_view ls = Some body -> line_disjoint ls = true ->
-  match rewrite_source mp ls with
-  | Ok None => forall it, In it body -> rewritten (it_stmt it) = false
-  | Ok (Some out) =>
-      (exists it, In it body /\ rewritten (it_stmt it) = true) /\
-      stmts_of out = Some (flat_map (rewrite_stmt mp) (map it_stmt body))
-  | _ => False
-  end.
-Proof.
-  intros HA HD. unfold rewrite_source. rewrite HA.
-  destruct (rewrite_imports mp ls body) as [out|] eqn:E.
-  - split.
-    + destruct (existsb (fun it => rewritten (it_stmt it)) body) eqn:X.
-      * apply existsb_exists in X. exact X.
-      * exfalso. assert (N : rewrite_imports mp ls body = None).
-        { apply rewrite_none_iff_lemma. intros it Hit.
-          destruct (rewritten (it_stmt it)) eqn:R; auto.
-          assert (existsb (fun it => rewritten (it_stmt it)) body = true)
-            by (apply existsb_exists; exists it; auto). congruence. }
-        congruence.
-    + assert (O : out = apply_replacements (replacements mp body) ls).
-      { unfold rewrite_imports in E. destruct (replacements mp body); [discriminate | congruence]. }
-      subst out. apply rewrite_splice_correct_lemma; auto.
-  - apply (proj1 (rewrite_none_iff_lemma mp ls body)). exact E.
-Qed.
-
 (* ------------------------------------------------------------------ on the regenerated table *)
 Lemma gen_keeps m : forall n nm nn, lookup2 gen_mapping m n = Some (nm, nn) -> nn = n.
 Proof.
@@ -711,40 +237,6 @@ Lemma mapped_name_importable_lemma m n m' n' :
   in_package gen_package m' = true /\
   exists names, In (m', (true, names)) gen_exports /\ In n' names.
 Proof. intros E. apply lookup2_In in E. eapply mapping_targets_exported_lemma. exact E. Qed.
-
-(* ------------------------------------------------------------------ witnesses *)
-Definition s_district42 : pystr := [100;105;115;116;114;105;99;116;52;50]%N.
-Definition s_d42 : pystr := [100;52;50]%N.
-Definition s_schema : pystr := [115;99;104;101;109;97]%N.
-Definition s_foo : pystr := [102;111;111]%N.
-
-(* F21: "from district42 import schema; x = 1" - one physical line, two statements *)
-Definition f21_import : stmt := ImportFrom 0 (Some s_district42) [(s_schema, None)].
-Definition f21_lines : list (list frag) := [[Frag f21_import 0 1; Frag (Other 1) 0 1]].
-Definition f21_body : list (stmt * nat * nat) := [(f21_import, 0, 0); (Other 1, 0, 0)].
-
-Lemma rewrite_splice_refuted_lemma :
-  ast_view f21_lines = Some f21_body /\
-  line_disjoint f21_lines = false /\
-  flat_map (rewrite_stmt gen_mapping) (map it_stmt f21_body)
-    = [ImportFrom 0 (Some s_d42) [(s_schema, None)]; Other 1] /\
-  stmts_of (apply_replacements (replacements gen_mapping f21_body) f21_lines)
-    = Some [ImportFrom 0 (Some s_d42) [(s_schema, None)]].
-Proof. vm_compute. repeat split. Qed.
-
-(* a form feed in front of the import: splitlines() breaks the line there, ast does not.
-   "\x0cfrom district42 import schema\nx = 1\n" *)
-Definition ff_lines : list (list frag) := [[]; [Frag f21_import 0 1]; [Frag (Other 1) 0 1]].
-Definition ff_body : list (stmt * nat * nat) := [(f21_import, 0, 0); (Other 1, 1, 1)].
-
-Lemma rewrite_misaligned_refuted_lemma :
-  aligned ff_lines ff_body = false /\
-  line_disjoint ff_lines = true /\
-  match rewrite_imports gen_mapping ff_lines ff_body with
-  | Some out => stmts_of out = Some [ImportFrom 0 (Some s_d42) [(s_schema, None)]; f21_import; Other 1]
-  | None => False
-  end.
-Proof. vm_compute. repeat split. Qed.
 
 (* ------------------------------------------------------------------ order per target module *)
 Definition gnames (M : option pystr) (g : list (pystr * list alias)) : list alias :=
@@ -933,4 +425,36 @@ Lemma rewrite_stmt_twice_gen s :
   flat_map (rewrite_stmt gen_mapping) (rewrite_stmt gen_mapping s) = rewrite_stmt gen_mapping s.
 Proof.
   destruct s as [[|l] m ns|i]; simpl; try reflexivity. apply rewrite_twice_stable_gen.
+Qed.
+
+(* the replacement statements are well-formed: each names at least one name *)
+Lemma dd_add_nonempty k v g : Forall (fun kv : pystr * list alias => snd kv <> []) g ->
+  Forall (fun kv : pystr * list alias => snd kv <> []) (dd_add k v g).
+Proof.
+  induction g as [|[k' vs] g IH]; simpl; intros H.
+  - constructor; [discriminate | constructor].
+  - inversion H as [|x l H1 H2]. subst. destruct (str_eqb k k').
+    + constructor; auto. simpl. destruct vs; discriminate.
+    + constructor; auto.
+Qed.
+
+Lemma fold_nonempty mp m ns : forall g u,
+  Forall (fun kv : pystr * list alias => snd kv <> []) g ->
+  Forall (fun kv : pystr * list alias => snd kv <> []) (fst (fold_left (rw_step mp m) ns (g, u))).
+Proof.
+  induction ns as [|a ns IH]; intros g u H; simpl; auto.
+  unfold rw_step at 2. simpl fst. simpl snd.
+  destruct (lookup2 mp m (fst a)) as [[nm nn]|]; apply IH; auto. apply dd_add_nonempty. exact H.
+Qed.
+
+Lemma rewrite_import_wf mp m ns : Forall (fun s => stmt_wf s = true) (rewrite_import mp m ns).
+Proof.
+  unfold rewrite_import.
+  pose proof (fold_nonempty mp m ns [] [] (Forall_nil _)) as H.
+  destruct (fold_left (rw_step mp m) ns ([], [])) as [g u]. simpl fst in *. simpl snd in *.
+  apply Forall_app. split.
+  - induction g as [|[k vs] g IH]; simpl; constructor.
+    + inversion H as [|x l H1 H2]. subst. simpl in H1. destruct vs; [congruence | reflexivity].
+    + apply IH. inversion H. assumption.
+  - destruct u; constructor; [reflexivity | constructor].
 Qed.
